@@ -21,7 +21,10 @@ PROPERTY = 'C07'
 RULEKINDS = ['leaf', 'expr', 'deny-const', 'allow-const', 'unknown-name',
              'unknown-name-with-default', 'empty-store', 'check-object',
              'scoped-registered', 'scoped-object']
-EXCKINDS = ['none', 'custom-noargs', 'custom-args', 'custom-kwargs']
+EXCKINDS = ['none', 'custom-noargs', 'custom-args', 'custom-kwargs',
+            # extras forwarded although no class was requested (a wrapper
+            # passing exc=None, action=...): still PolicyNotAuthorized
+            'none-args', 'none-kwargs']
 EXPR = 'sym:a and (sym:b or not sym:c)'
 
 
@@ -141,6 +144,10 @@ def run_modes(ctx, rulekind, exckind, via, debug):
                     _token_scope(creds) not in scope_types)
         if exckind == 'none':
             exc, args, kwargs = None, (), {}
+        elif exckind == 'none-args':
+            exc, args, kwargs = None, ('x', 3), {}
+        elif exckind == 'none-kwargs':
+            exc, args, kwargs = None, (), {'action': 'p', 'n': 1}
         elif exckind == 'custom-noargs':
             exc, args, kwargs = MyExc, (), {}
         elif exckind == 'custom-args':
